@@ -46,12 +46,21 @@ type C20Plan struct {
 	Ops      []C20Op         `json:"ops"`
 	Dispose  bool            `json:"dispose"`
 	Pull     bool            `json:"pull,omitempty"` // stream number Streams is fed by a relay pull from an origin stub (pull_* ops)
+	// DisposeRace > 0: Dispose is descheduled after that many scheduling steps (typically while it holds the server lock)
+	// for longer than a tick period, so that the periodic tick queues up behind it and runs right after it
+	DisposeRace int `json:"dispose_race,omitempty"`
 }
 
 func genC20Plan(r *sim.Rng, tier string) C20Plan {
 	var p C20Plan
 	p.Conf = LalConf{ApiEnable: true, FlvEnable: true, TsEnable: true, RtspEnable: true, HlsEnable: r.Bool(0.6), HlsFragMs: 300, HlsFragNum: 3, HlsCleanup: r.Intn(3),
 		RtmpGop: r.Intn(2), FlvGop: r.Intn(2), TsGop: r.Intn(2), RecordFlv: r.Bool(0.3), RecordTs: r.Bool(0.3), MergeWrite: []int{0, 0, 2000}[r.Intn(3)], NoHook: r.Bool(0.5)}
+	if r.Bool(0.4) {
+		p.Conf.HlsSubKey = "simsubkey" // HLS sub-session mode: players are redirected to a URL with a session_id and poll with it
+	}
+	if r.Bool(0.3) {
+		p.Conf.QueueSize = []int{4, 8, 16}[r.Intn(3)] // small per-subscriber write queues: "stall" ops fill them quickly
+	}
 	if sim.RaceEnabled {
 		p.Sched = sim.SchedParams{Free: true, MaxSteps: 60000, MaxSimSec: 3600, SegMode: r.Intn(2)}
 	} else {
@@ -115,6 +124,12 @@ func genC20Plan(r *sim.Rng, tier string) C20Plan {
 			} else {
 				p.Ops = append(p.Ops, C20Op{Kind: "send", S: s, N: 1 + r.Intn(3)})
 			}
+		case 18:
+			if r.Bool(0.5) {
+				p.Ops = append(p.Ops, C20Op{Kind: "stall", S: s})
+			} else {
+				p.Ops = append(p.Ops, C20Op{Kind: "send", S: s, N: 1 + r.Intn(5)})
+			}
 		default:
 			if r.Bool(0.4) {
 				p.Ops = append(p.Ops, C20Op{Kind: "settle"})
@@ -132,6 +147,9 @@ func genC20Plan(r *sim.Rng, tier string) C20Plan {
 	}
 	p.Ops = append(pre, p.Ops...)
 	p.Dispose = r.Bool(0.4)
+	if p.Dispose && r.Bool(0.5) {
+		p.DisposeRace = 1 + r.Intn(6)
+	}
 	return p
 }
 
@@ -302,6 +320,17 @@ func runC20(k *sim.Kernel, p C20Plan) {
 					s.rtmp.Publish(s.units[s.queued].Msg)
 					s.queued++
 				}
+			case "hls":
+				// sub-session mode: the player polls with the session_id it was redirected to, on several connections at once
+				if s.http == nil || !strings.Contains(s.http.Resp.Headers["location"], "session_id=") {
+					continue
+				}
+				for j := 0; j < 1+op.N%3; j++ {
+					nBurst++
+					c := actors.NewHttpClient(k, fmt.Sprintf("hlsp%d", nBurst), "get", s.http.Resp.Headers["location"])
+					c.Connect(PortHttp, 100+op.S)
+					bursts = append(bursts, c)
+				}
 			case "rtsp_pub":
 				if s.rtsp == nil || !s.rtsp.Ready || s.rtsp.Closed {
 					continue
@@ -315,6 +344,13 @@ func runC20(k *sim.Kernel, p C20Plan) {
 					s.queued++
 				}
 			}
+		case "stall":
+			// a player stops reading: lal's writes to it block once the window is used up
+			if s == nil || !s.started || s.left || s.conn() == nil || strings.HasSuffix(s.plan.Kind, "_pub") || s.plan.Kind == "hls" {
+				continue
+			}
+			s.conn().SetWindow(0)
+			k.Fault("peer_stops_reading")
 		case "leave":
 			if s == nil || !s.started || s.left {
 				continue
@@ -366,6 +402,12 @@ func runC20(k *sim.Kernel, p C20Plan) {
 	// teardown: everybody leaves, or the server is disposed with the sessions still attached
 	if p.Dispose {
 		t := k.Go("dispose", func() { w.Srv.Dispose() })
+		if p.DisposeRace > 0 && !p.Sched.Free {
+			for i := 0; i < p.DisposeRace && k.StepOnce(); i++ {
+			}
+			k.SleepHolding(1100 * time.Millisecond)
+			k.Fault("dispose_descheduled_over_a_tick")
+		}
 		k.Settle()
 		k.Advance(2 * time.Second)
 		k.Settle()
@@ -484,7 +526,12 @@ func init() {
 			}
 			if p.Dispose {
 				q := p
-				q.Dispose = false
+				q.Dispose, q.DisposeRace = false, 0
+				out = append(out, mustJSON(q))
+			}
+			if p.DisposeRace > 0 {
+				q := p
+				q.DisposeRace = 0
 				out = append(out, mustJSON(q))
 			}
 			if p.Sched.Preempt > 0 {
